@@ -14,10 +14,11 @@ rsync -a --delete --exclude target "$ROOT/harness/" $S/harness/
 sed -i "s#path = \"/repo\"#path = \"$S/repo\"#; s#path = \"/repo/parser\"#path = \"$S/repo/parser\"#" $S/harness/Cargo.toml
 cp "$ROOT/KNOWN_FINDINGS.txt" $S/out/
 rsync -a "$ROOT/regress" $S/out/
-IDS="$*"; [ -z "$IDS" ] && IDS="$(ls "$ROOT/seeded")"
+SEEDED="${SEEDED_DIR:-$ROOT/seeded}"
+IDS="$*"; [ -z "$IDS" ] && IDS="$(ls "$SEEDED")"
 : > $S/results.txt
 for ID in $IDS; do
-  DIR="$ROOT/seeded/$ID"
+  DIR="$SEEDED/$ID"
   PROPS="${VERIF_SWEEP_PROPS:-$(python3 -c "import json;print(json.load(open('$DIR/meta.json'))['property'])")}"
   git -C $S/repo checkout -q -- . ; git -C $S/repo clean -fdq
   if ! git -C $S/repo apply --whitespace=nowarn "$DIR/patch.diff" 2>/dev/null; then
